@@ -66,6 +66,12 @@ def hlp(x):
     LOG.append(("hlp", _norm(x)))
     return x + 1
 
+def __run_co__(co):
+    try:
+        co.send(None)
+    except StopIteration as e:
+        return e.value
+
 class CM:
     def __init__(self, site, val, swallow=False):
         self.site = site
@@ -367,6 +373,7 @@ class Gen:
             ("global", 1),
             ("del_nothing", 0),
             ("match", 1),
+            ("scopes", 1),
         ]
         if ctx["is_gen"]:
             choices.append(("yield", 4))
@@ -536,6 +543,36 @@ class Gen:
             ctx["bound"] = saved | (b1 & b2)
         else:
             ctx["bound"] = saved
+
+    def s_scopes(self, em, ctx, depth):
+        """Nested scopes whose own bindings / yields / returns are not those of f: a lambda that
+        assigns (walrus) or yields, a nested def with a parameter named like a local of f, a nested
+        async def that returns."""
+        rnd = self.rnd
+        fn = ctx["fn"]
+        kind = rnd.choice(["lambda_walrus", "lambda_yield", "param_shadow", "async_def"])
+        self.feat("scope_" + kind)
+        name = rnd.choice(LOCALS)
+        other = rnd.choice(LOCALS)
+        leaf = self.leaf()
+        if kind == "lambda_walrus":
+            em.both(f"{name} = (lambda: ({other} := {leaf}))()")
+        elif kind == "lambda_yield":
+            em.both(f"{name} = next((lambda: (yield {leaf}))())")
+        elif kind == "param_shadow":
+            em.both(f"def h_sh({other}, _k={leaf}):")
+            em.both(f"    {other} = {other} + _k")
+            em.both(f"    return {other}")
+            self.bind_hook(em, fn, "h_sh") if False else None
+            em.both(f"{name} = h_sh({self.leaf()})")
+            ctx.setdefault("nested_names", []).append("h_sh")
+        else:
+            em.both("async def co_in():")
+            em.both(f"    return {leaf}")
+            em.both(f"{name} = __run_co__(co_in())")
+            ctx.setdefault("nested_names", []).append("co_in")
+        self.bind_hook(em, fn, name)
+        ctx["bound"].add(name)
 
     def s_match(self, em, ctx, depth):
         """match statement: the names captured by the pattern of the case that is taken are
